@@ -127,8 +127,11 @@ func (d *Document) UpdateTOC() error {
 	}
 
 	// 处理SDT类型的TOC
-	// 使用默认TOC配置
+	// 使用默认TOC配置，但保留生成目录时请求的最大标题级别
 	config := DefaultTOCConfig()
+	if tocSDT.tocMaxLevel > 0 {
+		config.MaxLevel = tocSDT.tocMaxLevel
+	}
 
 	// 重新收集标题信息
 	entries := d.collectHeadings(config.MaxLevel)
@@ -624,6 +627,7 @@ func (d *Document) createWordFieldTOC(config *TOCConfig, entries []TOCEntry) []i
 
 	// 创建目录SDT容器
 	tocSDT := &SDT{
+		tocMaxLevel: config.MaxLevel,
 		Properties: &SDTProperties{
 			RunPr: &RunProperties{
 				FontFamily: &FontFamily{ASCII: "宋体", HAnsi: "宋体", EastAsia: "宋体", CS: "Times New Roman"},
